@@ -4,6 +4,9 @@ Usage: seedrun.py lane2|repo <seed-id>...     (lane2 = scratch worktree lane; re
 import json, os, subprocess, sys, time
 ROOT = "/verif"
 lane = sys.argv[1]
+import fcntl
+_lk = open(f"/tmp/lead/{lane}.lock", "w")
+fcntl.flock(_lk, fcntl.LOCK_EX)  # one run per lane at a time, even across dispatcher restarts
 for sid in sys.argv[2:]:
     meta = json.load(open(f"{ROOT}/seeded/{sid}/meta.json"))
     prop = meta["property"]
